@@ -77,42 +77,62 @@ def lccDrho (scale n nc t0nm1 psi0 : α) (tchi scchi psi dpsi : α) : α :=
       (RealLike.exp (sq nc / ((1 : α) + n) * psi) * emPsi tchi scchi - (t0nm1 + 1)) / (-n)
     else Dexp (-n * psi) (-n * psi0) * dpsi))
 
+/-! ### The careful evaluation of `1 − n` for `n >= 1/4`, piece by piece (the names are those of the code) -/
+
+/-- `s1 = (scbet1 − scchi1)(scbet1 + scchi1)` -/
+def lccS (e2 tphi scphi shxi chxi : α) : α :=
+  tphi * ((2 : α) * shxi * chxi * scphi - e2 * tphi) - sq shxi * ((1 : α) + (2 : α) * sq tphi)
+/-- `t1 = scbet1 − tchi1` -/
+def lccT (s tchi scbet : α) : α := if RealLike.ltb tchi (0 : α) then scbet - tchi else (s + 1) / (scbet + tchi)
+/-- `a1 = ((tchi1 − scbet1) + (scchi1 − scbet1))/(2 scbet1)` -/
+def lccA (s t scchi scbet : α) : α := -(s / (scbet + scchi) + t) / ((2 : α) * scbet)
+/-- `sec β − tan β` without cancellation -/
+def lccSecMinusTan (tbet scbet : α) : α := if RealLike.ltb (0 : α) tbet then (1 : α) / (scbet + tbet) else scbet - tbet
+/-- `tbm = 1 − (tbet2 + tbet1)/(scbet2 + scbet1)` -/
+def lccTbm (tbet1 scbet1 tbet2 scbet2 : α) : α := (lccSecMinusTan tbet1 scbet1 + lccSecMinusTan tbet2 scbet2) / (scbet1 + scbet2)
+/-- `dbet = (scbet2 + scbet1)/fm − (scphi2 + scphi1)` -/
+def lccDbet (e2 fm scphi1 scbet1 scphi2 scbet2 : α) : α :=
+  (e2 / fm) * ((1 : α) / (scbet2 + fm * scphi2) + (1 : α) / (scbet1 + fm * scphi1))
+/-- `dxiZ1 = xiZ − xi1` -/
+def lccDxiZ (e2 es sphi tphi scphi : α) : α := Deatanhe e2 es (1 : α) sphi / (scphi * (tphi + scphi))
+/-- `D(nu2, nu1)`, `nu = scphi·(shxiZ − shxi) − tphi·(chxiZ − chxi)` -/
+def lccDnu12 (f : α) (tphi1 scphi1 xi1 shxi1 chxi1 dshxiZ1 dchxiZ1 tphi2 scphi2 xi2 shxi2 chxi2 dshxiZ2 dchxiZ2 dxi : α) : α :=
+  (if RealLike.ltb (f * scphi1 * dshxiZ1) (f * (4 : α) * scphi2 * dshxiZ2) then
+      (dshxiZ1 + dshxiZ2) / 2 * Dhyp tphi1 tphi2 scphi1 scphi2
+        - ((scphi1 + scphi2) / 2 * Dsinh xi1 xi2 shxi1 shxi2 chxi1 chxi2 * dxi)
+    else (scphi2 * dshxiZ2 - scphi1 * dshxiZ1) / (tphi2 - tphi1))
+  + ((tphi1 + tphi2) / 2 * Dhyp shxi1 shxi2 chxi1 chxi2 * Dsinh xi1 xi2 shxi1 shxi2 chxi1 chxi2 * dxi)
+  - (dchxiZ1 + dchxiZ2) / 2
+
 /-- the careful evaluation of `1 − n` for `n >= 1/4` (arguments as in `Init`; the variable `t` of the code after its last update) -/
 def lccOneMinusN (E : Ell α) (den : α)
     (sphi1 tphi1 scphi1 shxi1 chxi1 xi1 tchi1 scchi1 tbet1 scbet1 : α)
     (sphi2 tphi2 scphi2 shxi2 chxi2 xi2 tchi2 scchi2 tbet2 scbet2 : α) : α :=
   let e2 := E.e2
   let fm := E.fm
-  let s1 := tphi1 * ((2 : α) * shxi1 * chxi1 * scphi1 - e2 * tphi1) - sq shxi1 * ((1 : α) + (2 : α) * sq tphi1)
-  let s2 := tphi2 * ((2 : α) * shxi2 * chxi2 * scphi2 - e2 * tphi2) - sq shxi2 * ((1 : α) + (2 : α) * sq tphi2)
-  let t1 := if RealLike.ltb tchi1 (0 : α) then scbet1 - tchi1 else (s1 + 1) / (scbet1 + tchi1)
-  let t2 := if RealLike.ltb tchi2 (0 : α) then scbet2 - tchi2 else (s2 + 1) / (scbet2 + tchi2)
-  let a2 := -(s2 / (scbet2 + scchi2) + t2) / ((2 : α) * scbet2)
-  let a1 := -(s1 / (scbet1 + scchi1) + t1) / ((2 : α) * scbet1)
+  let s1 := lccS e2 tphi1 scphi1 shxi1 chxi1
+  let s2 := lccS e2 tphi2 scphi2 shxi2 chxi2
+  let t1 := lccT s1 tchi1 scbet1
+  let t2 := lccT s2 tchi2 scbet2
+  let a2 := lccA s2 t2 scchi2 scbet2
+  let a1 := lccA s1 t1 scchi1 scbet1
   let t := Dlog1p a2 a1 / den
   let t := t * (((epPsi tchi2 scchi2 + epPsi tchi1 scchi1) / ((4 : α) * scbet1 * scbet2)) * fm)
-  let tbm := ((if RealLike.ltb (0 : α) tbet1 then (1 : α) / (scbet1 + tbet1) else scbet1 - tbet1) +
-              (if RealLike.ltb (0 : α) tbet2 then (1 : α) / (scbet2 + tbet2) else scbet2 - tbet2)) / (scbet1 + scbet2)
+  let tbm := lccTbm tbet1 scbet1 tbet2 scbet2
   let dtchi := den / Dasinh tchi2 tchi1 scchi2 scchi1
-  let dbet := (e2 / fm) * ((1 : α) / (scbet2 + fm * scphi2) + (1 : α) / (scbet1 + fm * scphi1))
+  let dbet := lccDbet e2 fm scphi1 scbet1 scphi2 scbet2
   let xiZ := eatanhe (1 : α) E.es
   let shxiZ := RealLike.sinh xiZ
   let chxiZ := hyp shxiZ
-  let dxiZ1 := Deatanhe e2 E.es (1 : α) sphi1 / (scphi1 * (tphi1 + scphi1))
-  let dxiZ2 := Deatanhe e2 E.es (1 : α) sphi2 / (scphi2 * (tphi2 + scphi2))
+  let dxiZ1 := lccDxiZ e2 E.es sphi1 tphi1 scphi1
+  let dxiZ2 := lccDxiZ e2 E.es sphi2 tphi2 scphi2
   let dshxiZ1 := Dsinh xiZ xi1 shxiZ shxi1 chxiZ chxi1 * dxiZ1
   let dshxiZ2 := Dsinh xiZ xi2 shxiZ shxi2 chxiZ chxi2 * dxiZ2
   let dchxiZ1 := Dhyp shxiZ shxi1 chxiZ chxi1 * dshxiZ1
   let dchxiZ2 := Dhyp shxiZ shxi2 chxiZ chxi2 * dshxiZ2
   let amu12 := -(scphi1 * dchxiZ1) + tphi1 * dshxiZ1 - scphi2 * dchxiZ2 + tphi2 * dshxiZ2
   let dxi := Deatanhe e2 E.es sphi1 sphi2 * Dsn tphi2 tphi1 sphi2 sphi1
-  let dnu12 :=
-    (if RealLike.ltb (E.f * scphi1 * dshxiZ1) (E.f * (4 : α) * scphi2 * dshxiZ2) then
-        (dshxiZ1 + dshxiZ2) / 2 * Dhyp tphi1 tphi2 scphi1 scphi2
-          - ((scphi1 + scphi2) / 2 * Dsinh xi1 xi2 shxi1 shxi2 chxi1 chxi2 * dxi)
-      else (scphi2 * dshxiZ2 - scphi1 * dshxiZ1) / (tphi2 - tphi1))
-    + ((tphi1 + tphi2) / 2 * Dhyp shxi1 shxi2 chxi1 chxi2 * Dsinh xi1 xi2 shxi1 shxi2 chxi1 chxi2 * dxi)
-    - (dchxiZ1 + dchxiZ2) / 2
+  let dnu12 := lccDnu12 E.f tphi1 scphi1 xi1 shxi1 chxi1 dshxiZ1 dchxiZ1 tphi2 scphi2 xi2 shxi2 chxi2 dshxiZ2 dchxiZ2 dxi
   let dchia := amu12 - dnu12 * (scphi2 + scphi1)
   let tam := (dchia - dtchi * dbet) / (scchi1 + scchi2)
   t * (tbm - tam)
